@@ -164,6 +164,9 @@ def gen_vmdk_text(rng):
     if rng.random() < 0.5:
         p['pad_lines'] = rng.choice((1, 5, 9, 60, 100))
         p['tail_lines'] = rng.choice((0, 1, 4))
+    if rng.random() < 0.3:
+        p['trailer'] = [rng.choice(('text', 'zero', 'inc')),
+                        rng.choice((1, 7, 512, 5000))]
     return p
 
 
@@ -296,6 +299,14 @@ def gen_overlay(rng):
                              'rand:%d' % rng.randrange(1 << 20)))}
     if 'gpt' in sigs and rng.random() < 0.3:
         p['fat'] = True
+    if rng.random() < 0.25:
+        # trailing signatures; needs room after the leading structures
+        p['tail'] = [rng.choice((['vhd', 512], ['vhd', 511], ['vmdk', 1024],
+                                 ['qcow2', 512], ['luks', 592],
+                                 ['vhdx', 65536], ['qed', 512]))]
+        if rng.random() < 0.5:
+            p['total'] = max(p['total'], rng.choice((4096, 70000,
+                                                     256 * KI + 4096)))
     return {'layout': 'overlay', 'p': p}
 
 
